@@ -24,7 +24,7 @@ SEPS3 = ["", "'", '"']
 
 # classes in which the unchanged implementation is known to miss the property
 # (each needs its line in known_findings.txt):
-KNOWN_ATTACHED_FROM = "attached-input-redirect-not-recognised"      # cmd <f , cmd <<<f
+KNOWN_ATTACHED_FROM = "attached-input-redirect-not-recognised"      # cmd <<<f
 KNOWN_ATTACHED_QUOTED = "attached-quoted-target-not-recognised"     # cmd >'/tmp/x y'
 
 
@@ -152,7 +152,9 @@ def _spelling_lines():
         for op in FROM_OPS:
             for typed, name, quoted in NAMES:
                 out.append((pre + op + " " + typed + post, [], (op, name), None))
-                out.append((pre + op + typed + post, [], (op, name), KNOWN_ATTACHED_FROM))
+                # `<file` is recognised since /repo 543507e; `<<<word` without a blank and quoted operands are not
+                out.append((pre + op + typed + post, [], (op, name),
+                            KNOWN_ATTACHED_QUOTED if quoted else (KNOWN_ATTACHED_FROM if op == "<<<" else None)))
     return out
 
 
@@ -193,9 +195,7 @@ def _spellings(ctx, res, d):
         ok = got == want
         if ok:
             # (inside a known class: the implementation now meets the property - accepted)
-            if m != i and m_att == i:
-                res.extra.setdefault("accepted", []).append("attached input redirection is recognised (proposed C04-fix-5 behaviour): " + line)
-            elif m != i:
+            if m != i:
                 nviol += 1
                 if nviol <= 3:
                     res.violate(kind="correspondence", layer="L1", function="Command::from_tokens",
